@@ -192,6 +192,46 @@ func matchIdiom(c *Check, j *CtxJudge, r *Resolver, s BSite, cone *Cone) (bool, 
 	switch s.Kind {
 	case "select":
 		return idiomSelect(j, r, s.In.(*ssa.Select))
+	case "poll":
+		// every cycle of the polling loop must look at the worker's context
+		// (a select with a Done() case, or ctx.Err()): otherwise the loop
+		// keeps running for as long as the producer keeps the channel busy
+		sel := s.In.(*ssa.Select)
+		fn := s.Fn
+		isCtxCheck := func(in ssa.Instruction) bool {
+			switch x := in.(type) {
+			case *ssa.Select:
+				if x == sel {
+					return false
+				}
+				for _, st := range x.States {
+					if st.Dir == types.RecvOnly {
+						if cx := doneRecvOf(st.Chan); cx != nil {
+							if ok, _ := j.OK(r, cx); ok {
+								return true
+							}
+						}
+					}
+				}
+			case *ssa.Call:
+				if x.Common().IsInvoke() && x.Common().Method.Name() == "Err" && isContextType(x.Common().Value.Type()) {
+					if ok, _ := j.OK(r, x.Common().Value); ok {
+						return true
+					}
+				}
+			case *ssa.UnOp:
+				if x.Op == token.ARROW {
+					if cx := doneRecvOf(x.X); cx != nil {
+						return true
+					}
+				}
+			}
+			return false
+		}
+		if again := searchAvoiding(fn, sel, func(in ssa.Instruction) bool { return in == ssa.Instruction(sel) }, isCtxCheck); again != nil {
+			return false, "polling loop: the non-blocking receive can be repeated without the worker's context being looked at in between: while the sender keeps the channel non-empty the worker does not observe cancellation"
+		}
+		return true, "idiom (k): every cycle of the polling loop passes a check of the worker's context"
 	case "recv":
 		u := s.In.(*ssa.UnOp)
 		if x := doneRecvOf(u.X); x != nil {
